@@ -45,7 +45,7 @@ COMPONENTS = ["orch", "state", "trigger", "cds", "broker", "waitpurge", "trigdef
 def gen_cases(tier, seed):
     thorough = tier == "thorough"
     cases = []
-    n = 8000 if thorough else 300
+    n = 5000 if thorough else 300
     per = 100 if thorough else 10
     length = 300 if thorough else 100
     for i in range(n // per):
